@@ -847,6 +847,31 @@ func siteIn(fn *ssa.Function, call ssa.CallInstruction) ssa.CallInstruction {
 	return nil
 }
 
+// allActuals: pred holds for v, or v is a parameter of a same-package helper and pred holds for the argument at every call site
+func allActuals(v ssa.Value, pred func(ssa.Value) bool) bool {
+	var rec func(v ssa.Value, d int) bool
+	rec = func(v ssa.Value, d int) bool {
+		if pred(v) {
+			return true
+		}
+		p, ok := v.(*ssa.Parameter)
+		if !ok || d > 2 {
+			return false
+		}
+		acts := actualsOf(p)
+		if len(acts) == 0 {
+			return false
+		}
+		for _, a := range acts {
+			if !rec(a, d+1) {
+				return false
+			}
+		}
+		return true
+	}
+	return rec(v, 0)
+}
+
 // throughParams: a parameter of a helper with exactly one static call site stands for the argument given there
 func throughParams(v ssa.Value) ssa.Value {
 	for d := 0; d < 3; d++ {
